@@ -16,8 +16,8 @@ class MySQLParser(SQLParser):
         ('left', OR),
         ('left', AND),
         ('right', UNOT),
-        ('left', EQUALS, NEQUALS),
-        ('nonassoc', LESS, LEQ, GREATER, GEQ, IN, NOT, BETWEEN, IS, IS_NOT, LIKE),
+        ('left', EQUALS, NEQUALS, IS, IS_NOT, IN, NOT, LIKE, BETWEEN),
+        ('left', LESS, LEQ, GREATER, GEQ),
         ('left', PLUS, MINUS),
         ('left', STAR, DIVIDE, MODULO),
         ('left', CONCAT),  # binds tighter than arithmetic and comparison (SQLite, MySQL with PIPES_AS_CONCAT)
@@ -813,7 +813,7 @@ class MySQLParser(SQLParser):
         return Function(op=p.id.strip("`"), args=args)
 
     # arguments are optional in functions, so that things like `select database()` are possible
-    @_('expr BETWEEN expr AND expr')
+    @_('expr BETWEEN expr AND expr %prec BETWEEN')
     def expr(self, p):
         return BetweenOperation(args=(p.expr0, p.expr1, p.expr2))
 
